@@ -1,4 +1,3 @@
-(* WIP *)
 (* Engine for C22 (and the parsing / printing helpers shared by the C20 and C21 engines): parses a
    case produced by `hx storage` — a sequence of storage hook events and, per back end, what the
    real hook returned from StoredClients / StoredSubscriptions / StoredInflightMessages /
